@@ -294,7 +294,9 @@ def lowerE (refs : Refs) : Nat → Node → LM E
         let cmpOp : Opcode :=
           if lt.root == (tyOf r).root then
             match lt with
-            | .float => .fcmp | .int => .icmp | .str => .scmp | _ => .cmp
+            | .float => .fcmp | .int => .icmp | .str => .scmp
+            -- a variable the checker has bound to String: still a string comparison
+            | _ => if lt.root == .str then .scmp else .cmp
           else .cmp
         pure (.cmp (iN cmpOp arg) jm a b)
       | .plus | .minus | .mul | .div | .mod | .pow | .assign => do
